@@ -13,8 +13,8 @@ use crate::refledger::{self as rl, Ann, Bal, Exp, Prec, State, P};
 pub const DEF: CheckDef = CheckDef {
     id: "C04",
     run,
-    technique: "exhaustive enumeration of all ledgers of up to 3-4 transactions over a 14-transaction alphabet (as histories, any file order) x precision contexts x ALL (start,end) date ranges; balance, range-recomputed balance and register are obtained from the real code and compared with each other and with the reference ledger's per-posting amounts",
-    rule: "case = (precision context, sequence of <= 4 (thorough 5) transactions from a 14-transaction alphabet with three dates, repeated dates, multi-commodity, cancelling, inferred, assigned, priced and sub-precision postings); inside a case all 36 (start,end) pairs over {none, d1-1, d1, d2, d3, d3+1} (incl. start=end and start>end) are queried, additivity is checked for every split point, and a slice of cases is also run through the CLI (balance/register on real files). states = distinct ledgers, transitions = balance/register queries compared",
+    technique: "exhaustive enumeration of all ledgers of up to 3-4 transactions over a 16-transaction alphabet (as histories, any file order) x precision contexts x ALL (start,end) date ranges; balance, range-recomputed balance and register are obtained from the real code and compared with each other and with the reference ledger's per-posting amounts",
+    rule: "case = (precision context, sequence of <= 4 (thorough 5) transactions from a 16-transaction alphabet with three dates, repeated dates, multi-commodity, cancelling, inferred, assigned, priced and sub-precision postings); inside a case all 36 (start,end) pairs over {none, d1-1, d1, d2, d3, d3+1} (incl. start=end and start>end) are queried, additivity is checked for every split point, and a slice of cases is also run through the CLI (balance/register on real files). states = distinct ledgers, transitions = balance/register queries compared",
     assumptions: &[
         "RefLedger gives the per-posting amounts; sums are exact rationals; a range report may be rounded to the declared precision (any midpoint rule accepted), the whole-history report may be raw",
         "three dates, accounts {P,Q,R}, commodities {X,Y}",
@@ -51,6 +51,9 @@ fn alphabet() -> Vec<T> {
         T { day: D3, ps: vec![a("P", "1", "X"), a("P", "-1", "X")] },
         T { day: D2, ps: vec![a("P", "0.004", "X"), a("Q", "-0.004", "X")] },
         T { day: D3, ps: vec![a("Q", "2", "Y").with_ann(Ann::LotRate("3", "X")), a("R", "-6", "X")] },
+        // assignments to zero of one commodity (the account must stop showing it) and of the whole account
+        T { day: D2, ps: vec![P::assign("P", Bal::Val("0", "X")), P::omitted("Q")] },
+        T { day: D3, ps: vec![P::assign("Q", Bal::Val("0", "Y")), P::omitted("R")] },
     ]
 }
 
